@@ -71,6 +71,8 @@ theorem structural_facts :
     Generated.goStatementsRoundtripper = ["handleStaleWhileRevalidate", "backgroundRevalidate"] ∧
     Generated.transportFieldWriters = ["newTransport"] ∧
     Generated.transportFieldWritersOptions = ["WithLogger", "WithSWRTimeout", "WithUpstream"] ∧
-    Generated.upstreamCallSites = ["handleUnrecognizedMethod", "handleUnrecognizedMethod", "roundTripTimed"] := by decide
+    -- the upstream is called in one place, a wrapper that only allocates a missing Header map, and the wrapper in three
+    Generated.upstreamCallSites = ["callUpstream"] ∧
+    Generated.upstreamWrapperCallSites = ["handleUnrecognizedMethod", "handleUnrecognizedMethod", "roundTripTimed"] := by decide
 
 end Httpcache.C16
